@@ -27,7 +27,7 @@ THEOREMS = [
     'CC.C17_faithful', 'CC.C17_table_total', 'CC.C17_table_wellformed', 'CC.C17_circuit_table_total',
     'CC.C17_toComplex_pure', 'CC.C17_pure', 'CC.C17_idempotent', 'CC.C17_circuit_pure', 'CC.C17_circuit_idempotent',
     'CC.C17_roundtrip', 'CC.C17_roundtrip_codec', 'CC.C17_dictify_converts', 'CC.C17_undictify_scalar_list',
-    'CC.C17_circuit_complex', 'CC.C17_no_decorated_loader',
+    'CC.C17_circuit_complex', 'CC.C17_no_decorated_loader', 'CC.C17_notation_shape', 'CC.C17_mixed_keys',
 ]
 OPEN_STATEMENTS = []
 ASSUMPTIONS = [
@@ -38,6 +38,23 @@ ASSUMPTIONS = [
 ]
 
 # --------------------------------------------------------------------------- wire encoding
+
+def enc_key(k):
+    """a dictionary key -> string: strings as they are; numbers / booleans / None injectively with a control-character tag
+    (equal keys — 1, 1.0, True — get equal encodings, as they are one key for Python); see CC/Model/Load.lean `keyClass`"""
+    if isinstance(k, str):
+        return k
+    if k is None:
+        return '\u0001none'
+    if isinstance(k, (bool, int, float, np.integer, np.floating)):
+        return '\u0001n:' + core.q(int(k) if isinstance(k, (bool, np.bool_)) else k)
+    raise TypeError(f'cannot encode key {k!r}')
+
+def dec_key(s):
+    if s == '\u0001none': return None
+    if s.startswith('\u0001n:'):
+        fr = Fraction(s[3:]); return int(fr) if fr.denominator == 1 else float(fr)
+    return s
 
 def enc(x):
     """Python value -> wire tree (see CC/Driver/DLoad.lean)"""
@@ -56,7 +73,7 @@ def enc(x):
     if isinstance(x, (list, tuple)):
         return [enc(v) for v in x]
     if isinstance(x, dict):
-        return {'o': [[k, enc(v)] for k, v in x.items()]}
+        return {'o': [[enc_key(k), enc(v)] for k, v in x.items()]}
     raise TypeError(f'cannot encode {type(x).__name__}')
 
 def dec(w):
@@ -70,7 +87,7 @@ def dec(w):
         return int(fr) if fr.denominator == 1 and '/' not in w['n'] and abs(fr) < 2 ** 53 and False else float(fr)
     if 'c' in w:
         return core.cfloat(w['c'])
-    return {k: dec(v) for k, v in w['o']}
+    return {dec_key(k): dec(v) for k, v in w['o']}
 
 def same(a, b, tol=1e-12):
     """wire trees equal: exactly, except complex leaves within `tol` relative"""
@@ -253,16 +270,25 @@ def malform(rng, desc, how):
     elif how == 'complex_for_plain' and vals: e[rng.choice(vals)] = cx_notation(rng)[0]
     return desc
 
-def gen_tree(rng, depth=0, cx=True, cxlike=True, scalars_in_lists=False, bad=False):
-    """a dict-rooted document"""
+NONSTR_KEYS = [2, 3, 7, -1, 0, 1.5, 0.25, True, None]          # YAML mapping keys (no two of them equal: 1 == 1.0 == True is one key)
+
+def gen_tree(rng, depth=0, cx=True, cxlike=True, scalars_in_lists=False, bad=False, nonstr_keys=0.0, numpy_leaves=0.0, numpy_floats=False):
+    """a dict-rooted document; `nonstr_keys`: probability of an int / float / bool / None key (YAML documents, direct calls);
+    `numpy_leaves`: probability that a complex leaf is a numpy.complex128 (a solver result); `numpy_floats`: real leaves may be
+    numpy.float64 (json carries them, yaml does not — not a complex value)"""
     d = {}
+    kw = dict(cx=cx, cxlike=cxlike, scalars_in_lists=scalars_in_lists, bad=bad, nonstr_keys=nonstr_keys, numpy_leaves=numpy_leaves,
+              numpy_floats=numpy_floats)
     for i in range(rng.randint(0 if depth else 1, 4)):
         key = rng.choice(['a', 'b', 'z', 'value', 'nodes', 'k%d' % i, 'Real', 'ABS', 'phase2', 'é', 'list'])
+        if rng.random() < nonstr_keys: key = rng.choice(NONSTR_KEYS)
         c = rng.random()
-        if c < 0.22: v = num(rng)
+        if c < 0.22: v = np.float64(num(rng)) if numpy_floats and rng.random() < 0.3 else num(rng)
         elif c < 0.30: v = rng.choice(['s', '', 'yes', '1', 'null', 'ü'])
         elif c < 0.34: v = rng.choice([None, True, False])
-        elif c < 0.46 and cx: v = complex(num(rng), num(rng))
+        elif c < 0.46 and cx:
+            v = complex(num(rng), num(rng))
+            if rng.random() < numpy_leaves: v = np.complex128(v)
         elif c < 0.60 and cxlike:
             r = rng.random()
             if r < 0.4: v = cx_notation(rng, 'cart')[0]
@@ -273,9 +299,9 @@ def gen_tree(rng, depth=0, cx=True, cxlike=True, scalars_in_lists=False, bad=Fal
                 v = rng.choice([{'real': 'x', 'imag': 1}, {'abs': -1, 'phase': 0}, {'abs': 'a', 'phase': 0},
                                 {'abs': 1, 'phase': None}, {'real': None, 'imag': 0}, {'abs': -2.5, 'phase_deg': 10},
                                 {'abs': 1, 'phase_deg': 'x'}, {'real': 1, 'imag': 2, 'extra': 3}, {'real': 1}])
-        elif c < 0.80 and depth < 3: v = gen_tree(rng, depth + 1, cx, cxlike, scalars_in_lists, bad)
+        elif c < 0.80 and depth < 3: v = gen_tree(rng, depth + 1, **kw)
         elif depth < 3:
-            v = [gen_tree(rng, depth + 1, cx, cxlike, scalars_in_lists, bad) for _ in range(rng.randint(0, 3))]
+            v = [gen_tree(rng, depth + 1, **kw) for _ in range(rng.randint(0, 3))]
             if scalars_in_lists and rng.random() < 0.6:
                 v.insert(rng.randint(0, len(v)), rng.choice([1, 'n', None, [1], 2.5, complex(0, 1) if cx else 0]))
         else: v = num(rng)
@@ -288,6 +314,37 @@ def has_complex(t):
     if isinstance(t, list): return any(has_complex(v) for v in t)
     return False
 
+def rp(t):
+    """a document as it goes into a replay file: itself when JSON can carry it (string keys), else its wire encoding"""
+    return {'__wire__': enc(t), 'numpy_complex': has_numpy_complex(t)} if has_nonstr_key(t) or has_numpy_complex(t) else t
+
+def from_rp(x):
+    if isinstance(x, dict) and set(x) == {'__wire__', 'numpy_complex'}:
+        def conv(v):
+            if isinstance(v, complex): return np.complex128(v) if x['numpy_complex'] else v
+            if isinstance(v, dict): return {k: conv(w) for k, w in v.items()}
+            if isinstance(v, list): return [conv(w) for w in v]
+            return v
+        return conv(dec(x['__wire__']))
+    return x
+
+def has_nonstr_key(t):
+    if isinstance(t, dict): return any(not isinstance(k, str) or has_nonstr_key(v) for k, v in t.items())
+    if isinstance(t, list): return any(has_nonstr_key(v) for v in t)
+    return False
+
+def has_mixed_keys(t):
+    cls = lambda k: 0 if isinstance(k, str) else 2 if k is None else 1
+    if isinstance(t, dict): return len({cls(k) for k in t}) > 1 or any(has_mixed_keys(v) for v in t.values())
+    if isinstance(t, list): return any(has_mixed_keys(v) for v in t)
+    return False
+
+def has_numpy_complex(t):
+    if isinstance(t, np.complexfloating): return True
+    if isinstance(t, dict): return any(has_numpy_complex(v) for v in t.values())
+    if isinstance(t, list): return any(has_numpy_complex(v) for v in t)
+    return False
+
 def has_scalar_in_list(t):
     if isinstance(t, dict): return any(has_scalar_in_list(v) for v in t.values())
     if isinstance(t, list): return any(not isinstance(v, dict) or has_scalar_in_list(v) for v in t)
@@ -295,7 +352,7 @@ def has_scalar_in_list(t):
 
 def has_cxlike(t):
     if isinstance(t, dict):
-        return any((isinstance(v, dict) and sorted(v) in (['imag', 'real'], ['abs', 'phase'], ['abs', 'phase_deg'])) or has_cxlike(v)
+        return any((isinstance(v, dict) and set(v) in ({'imag', 'real'}, {'abs', 'phase'}, {'abs', 'phase_deg'})) or has_cxlike(v)
                    for v in t.values())
     if isinstance(t, list): return any(has_cxlike(v) for v in t)
     return False
@@ -550,35 +607,35 @@ def check_inplace(ctx, out, name, t, all_):
         if kind == 'ok' and isinstance(t_impl, (dict, list)) and val is t_impl:
             ok = False                                  # the model says: a new container, never the argument
         if not ok:
-            out.disagree(name, t, dict(res=(kind, str(val)[:300]), post=after), m)
+            out.disagree(name, rp(t), dict(res=(kind, str(val)[:300]), post=after), m)
         out.traces_validated += 1
     # oracle (flat conversion): every top-level value that is a well-formed notation becomes the number it denotes
     if name == 'undictify_complex_values' and isinstance(t, dict):
         def wellformed(v):
             if not isinstance(v, dict): return None
             isnum = lambda x: isinstance(x, (int, float)) and not isinstance(x, bool)
-            if sorted(v) == ['imag', 'real'] and isnum(v['real']) and isnum(v['imag']): return complex(v['real'], v['imag'])
-            if sorted(v) == ['abs', 'phase'] and isnum(v['abs']) and isnum(v['phase']) and v['abs'] >= 0: return v['abs'] * cmath.rect(1.0, v['phase'])
-            if sorted(v) == ['abs', 'phase_deg'] and isnum(v['abs']) and isnum(v['phase_deg']) and v['abs'] >= 0:
+            if set(v) == {'imag', 'real'} and isnum(v['real']) and isnum(v['imag']): return complex(v['real'], v['imag'])
+            if set(v) == {'abs', 'phase'} and isnum(v['abs']) and isnum(v['phase']) and v['abs'] >= 0: return v['abs'] * cmath.rect(1.0, v['phase'])
+            if set(v) == {'abs', 'phase_deg'} and isnum(v['abs']) and isnum(v['phase_deg']) and v['abs'] >= 0:
                 return v['abs'] * cmath.rect(1.0, math.radians(v['phase_deg']))
             return None
-        looks = lambda v: isinstance(v, dict) and sorted(v) in (['imag', 'real'], ['abs', 'phase'], ['abs', 'phase_deg'])
+        looks = lambda v: isinstance(v, dict) and set(v) in ({'imag', 'real'}, {'abs', 'phase'}, {'abs', 'phase_deg'})
         wants = {k: wellformed(v) for k, v in t.items()}
         if all(wants[k] is not None for k, v in t.items() if looks(v)) and any(w is not None for w in wants.values()):
-            notation = ','.join(sorted({'+'.join(sorted(v)) for v in t.values() if looks(v)}))
+            notation = ','.join(sorted({'+'.join(sorted(map(str, v))) for v in t.values() if looks(v)}))
             if kind == 'err':
                 out.spec_fail(dict(op=name, symptom='valid_notation_raises', exc=val, notation=notation),
-                              f'a document whose complex notations are all well-formed is rejected: {val}', t)
+                              f'a document whose complex notations are all well-formed is rejected: {val}', rp(t))
             else:
                 for k, w in wants.items():
                     if w is not None and not (isinstance(val.get(k), complex) and core.close(val[k], w, 0.0, 1e-12)):
-                        out.spec_fail(dict(op=name, symptom='wrong_value', notation=notation), f'notation under key {k!r} converted to a different number', t,
+                        out.spec_fail(dict(op=name, symptom='wrong_value', notation=notation), f'notation under key {k!r} converted to a different number', rp(t),
                                       impl=str(val.get(k)), spec=str(w))
                         break
                 else:
                     out.nontrivial(('undictify', notation))
     if before != after:
-        out.spec_fail(dict(op=name, symptom='argument_mutated'), f'{name} changed the document it was given', t, impl=dict(after=t_impl))
+        out.spec_fail(dict(op=name, symptom='argument_mutated'), f'{name} changed the document it was given', rp(t), impl=dict(after=rp(t_impl)))
     return kind, val
 
 LIBS = None
@@ -666,24 +723,25 @@ def check_roundtrip(ctx, out, t, fmt):
     from CircuitCalculator import dump_load as DL
     out.evaluations += 1
     out.count('roundtrip:' + fmt)
-    facts = dict(op='roundtrip', format=fmt, has_complex=has_complex(t), scalar_in_list=has_scalar_in_list(t))
+    facts = dict(op='roundtrip', format=fmt, has_complex=has_complex(t), scalar_in_list=has_scalar_in_list(t),
+                 mixed_keys=has_mixed_keys(t), numpy_complex=has_numpy_complex(t))
     t0 = copy.deepcopy(t)
     k1, s = attempt(DL.serialize, t, fmt)
     if enc(t) != enc(t0):
-        out.spec_fail(dict(op='serialize', symptom='argument_mutated', format=fmt), 'serialize changed the document it was given', t0,
-                      impl=dict(after=t))
+        out.spec_fail(dict(op='serialize', symptom='argument_mutated', format=fmt), 'serialize changed the document it was given', rp(t0),
+                      impl=dict(after=rp(t)))
     if k1 == 'err':
-        out.spec_fail(dict(facts, symptom='serialize_raises', exc=s), f'a document cannot be serialised to {fmt}: {s}', t0)
+        out.spec_fail(dict(facts, symptom='serialize_raises', exc=s), f'a document cannot be serialised to {fmt}: {s}', rp(t0))
         return
     k2, back = attempt(DL.deserialize, s, fmt)
     if k2 == 'err':
-        out.spec_fail(dict(facts, symptom='deserialize_raises', exc=back), f'a serialised document cannot be loaded back from {fmt}: {back}', t0,
+        out.spec_fail(dict(facts, symptom='deserialize_raises', exc=back), f'a serialised document cannot be loaded back from {fmt}: {back}', rp(t0),
                       impl=dict(text=s[:400]))
         return
     if not value_equal(back, t0):
-        out.spec_fail(dict(facts, symptom='differs'), f'document changed in a {fmt} round trip', t0, impl=dict(back=back, text=s[:400]))
+        out.spec_fail(dict(facts, symptom='differs'), f'document changed in a {fmt} round trip', rp(t0), impl=dict(back=rp(back), text=s[:400]))
         return
-    out.nontrivial(('roundtrip', fmt, facts['has_complex'], facts['scalar_in_list'], depth_of(t0)))
+    out.nontrivial(('roundtrip', fmt, facts['has_complex'], facts['scalar_in_list'], facts['mixed_keys'], facts['numpy_complex'], depth_of(t0)))
 
 def value_equal(a, b):
     if isinstance(a, dict) and isinstance(b, dict):
@@ -735,6 +793,47 @@ def check_generate_component(ctx, out, comp, meaning, valid, notation):
         out.spec_fail(dict(op='generate_component', symptom='unfaithful', kind=kind_s, notation=notation),
                       f'loaded {kind_s} component differs from what was written', comp, impl=str(v1), spec=str(want))
     out.nontrivial(('component', kind_s, notation))
+
+VALUE_FAULTS = ['misspelt_key', 'extra_key', 'sibling_key']
+
+def value_fault(rng, kind, fault):
+    """a component whose value block does not fit its kind: a misspelt key, an unknown extra key, a key of a sibling kind;
+    returns the component and the numbers written into its value block"""
+    comp, _ = gen_component(rng, kind, rng.choice(IDS), rng.sample(LABELS, 2), 'real')
+    val = comp['value']
+    marker = 7000.0 + rng.randint(1, 900) + 0.25
+    params = set(INTENDED_C[kind][0])
+    if fault == 'misspelt_key':
+        k = rng.choice(sorted(val))
+        alt = k.swapcase() if k.swapcase() != k and k.swapcase() not in params else k + '_'
+        del val[k]; val[alt] = marker
+    elif fault == 'extra_key':
+        val[rng.choice(['Q', 'tolerance', 'value', 'Rs'])] = marker
+    else:
+        others = sorted({p for kk in INTENDED_C for p in INTENDED_C[kk][0]} - params)
+        val[rng.choice(others)] = marker
+    nums = [float(v) for v in val.values() if isinstance(v, (int, float)) and not isinstance(v, bool)]
+    return comp, nums
+
+def check_value_fault(ctx, out, comp, kind, fault, written):
+    """a value block that does not fit the element kind is rejected — or, if it is accepted, every number that was written
+    is found in the loaded component (nothing is dropped silently)"""
+    from CircuitCalculator.Circuit import dump_load as CDL
+    check_generate_component(ctx, out, comp, {}, False, 'real')            # correspondence with the model (typed error)
+    k, v = attempt(CDL.generate_component, copy.deepcopy(comp))
+    out.count(f'value_fault:{fault}:' + ('rejected:' + v if k == 'err' else 'accepted'))
+    if k == 'ok':
+        have = []
+        for x in v.value.values():
+            if isinstance(x, complex): have += [x.real, x.imag]
+            elif isinstance(x, (int, float)) and not isinstance(x, bool): have.append(float(x))
+        lost = [w for w in written if not any(core.close(w, h, 0.0, 1e-12) for h in have)]
+        if lost:
+            out.spec_fail(dict(op='generate_component', symptom='written_value_dropped', fault=fault, kind=kind),
+                          f'a {kind} component with a {fault.replace("_", " ")} is accepted and the written value(s) {lost} are silently dropped', comp,
+                          impl=str(v), spec='rejected with the typed error, or every written number is found in the loaded component')
+            return
+    out.nontrivial(('value_fault', kind, fault))
 
 def check_circuit_text(ctx, out, comp, meaning, notation, fmt):
     """a circuit *file* whose complex values are written in a documented notation (oracle on Circuit.dump_load.deserialize)"""
@@ -1045,7 +1144,8 @@ def run(ctx, out):
     # ---- dictify / undictify
     rng = ctx.rng('trees')
     for i in range(50 * scale):
-        t = gen_tree(rng, cx=True, cxlike=rng.random() < 0.7, scalars_in_lists=rng.random() < 0.4, bad=rng.random() < 0.3)
+        t = gen_tree(rng, cx=True, cxlike=rng.random() < 0.7, scalars_in_lists=rng.random() < 0.4, bad=rng.random() < 0.3,
+                     nonstr_keys=0.3 if i % 3 == 0 else 0.0, numpy_leaves=0.3, numpy_floats=(i % 4 == 0))
         check_inplace(ctx, out, 'dictify_complex_values', t, False)
         check_inplace(ctx, out, 'dictify_all_complex_values', t, True)
         check_inplace(ctx, out, 'undictify_complex_values', t, False)
@@ -1077,9 +1177,19 @@ def run(ctx, out):
         k, s = check_serialize(ctx, out, t, None, file=path)
         check_deserialize(ctx, out, s if k == 'ok' else '{}', None, file=path)
     # round-trip oracle: first the former failing documents (fixed by 2481879; reported again if it is reverted)
-    for t in ({'a': complex(1, 2)}, {'nodes': ['0', '1']}, {'l': [complex(0, 1), {'z': complex(3, 4)}, 2.5, [complex(1, 0)]]}):
+    for t in ({'a': complex(1, 2)}, {'nodes': ['0', '1']}, {'l': [complex(0, 1), {'z': complex(3, 4)}, 2.5, [complex(1, 0)]]},
+              {'z': np.complex128(1 + 2j)}, {'r': [np.complex128(0.5j), {'v': np.complex128(-3)}]}):        # fixed by 6d9f0ec
         for fmt in fmts:
             check_roundtrip(ctx, out, copy.deepcopy(t), fmt)
+    # YAML mappings with keys of different types (fixed by 65da131); JSON keys are always strings
+    for t in ({1: 'x', 'a': 2}, {None: 1, 'a': complex(0, 1)}, {1: 'x', 'a': complex(1, 2)}, {2: complex(1, 2), 3: 'x'},
+              {'m': {True: 1, 'k': [1.5, {0.25: 'q', 'z': complex(2, 0)}]}}):
+        for fmt in ('yaml', 'yml'):
+            check_roundtrip(ctx, out, copy.deepcopy(t), fmt)
+    for i in range(20 * scale):
+        t = gen_tree(rng, cx=True, cxlike=False, scalars_in_lists=rng.random() < 0.5, nonstr_keys=0.35 if i % 2 else 0.0, numpy_leaves=0.5)
+        if has_cxlike(t): continue
+        check_roundtrip(ctx, out, t, ('yaml', 'yml')[i % 2] if has_nonstr_key(t) else fmts[i % 3])
     for i in range(45 * scale):
         c = i % 3
         t = gen_tree(rng, cx=(c == 0), cxlike=False, scalars_in_lists=(c == 1))
@@ -1105,6 +1215,12 @@ def run(ctx, out):
                     check_circuit_text(ctx, out, comp, meaning, cx_as, ('json', 'yaml', 'yml')[rep % 3])
                 else:
                     check_generate_component(ctx, out, comp, meaning, True, cx_as if has_cx else 'real')
+    # value blocks that do not fit the element kind (misspelt / unknown / sibling-kind keys)
+    for kind in known_circ:
+        for fault in VALUE_FAULTS:
+            for rep in range(scale):
+                comp, written = value_fault(rng, kind, fault)
+                check_value_fault(ctx, out, comp, kind, fault, written)
     # former failing circuit files (fixed by b379006)
     check_circuit_text(ctx, out, {'type': 'impedance', 'id': 'Z', 'nodes': ['0', '1'], 'value': {'Z': {'real': 1, 'imag': 2}}},
                        {'Z': complex(1, 2)}, 'cart', 'json')
@@ -1156,7 +1272,11 @@ def replay(ctx, out, rp):
     elif op in ('load_network', 'load_network_from_json'):
         check_load_network(ctx, out, inp, True, 'replay')
     elif op in ('roundtrip', 'serialize'):
-        check_roundtrip(ctx, out, inp, canon.get('format', 'json'))
+        check_roundtrip(ctx, out, from_rp(inp), canon.get('format', 'json'))
+    elif op == 'generate_component' and canon.get('symptom') == 'written_value_dropped':
+        val = inp.get('value', {})
+        check_value_fault(ctx, out, inp, canon.get('kind'), canon.get('fault'),
+                          [float(v) for v in val.values() if isinstance(v, (int, float)) and not isinstance(v, bool)])
     elif op == 'generate_component':
         check_generate_component(ctx, out, inp, {}, False, canon.get('notation', 'real'))
         from CircuitCalculator.Circuit import dump_load as CDL
@@ -1168,7 +1288,7 @@ def replay(ctx, out, rp):
     elif op == 'file_load':
         run_file_streams(ctx, out, 2)
     elif op in ('undictify_complex_values',):
-        check_inplace(ctx, out, op, inp, False)
+        check_inplace(ctx, out, op, from_rp(inp), False)
     else:
         raise SystemExit(f'cannot replay op {op!r}')
     # a replay is about the recorded failure: other *known* findings that fire on the same input are not re-reported
